@@ -86,7 +86,7 @@ func loadConfig(id string) (*PropertyConfig, error) {
 func selectContracts(w *World, cfg *PropertyConfig) []*FuncContract {
 	var out []*FuncContract
 	for _, fc := range w.contracts {
-		if fc.Extern || fc.Inline {
+		if fc.Extern || fc.Inline || fc.Interface || fc.Trusted {
 			continue
 		}
 		if strings.HasPrefix(fc.Key, "interface:") {
